@@ -25,7 +25,7 @@ pub enum Outc {
 }
 
 impl Outc {
-    fn show(&self) -> String {
+    pub fn show(&self) -> String {
         match self {
             Outc::Ok(b) => format!("ok {}", hex(b)),
             Outc::Reject => String::from("reject"),
